@@ -51,6 +51,11 @@ PLAN = {
         'quick': ['residue_quick'],
         'thorough': ['residue_quick', 'residue'],
     },
+    'C12': {
+        'inv': ['C12_Isolation'],
+        'quick': ['hostile_quick'],
+        'thorough': ['hostile_quick', 'hostile'],
+    },
     'C16': {
         'inv': ['ConnAgree', 'C16_SessionIsolation'],
         'quick': ['sessions_quick'],
